@@ -34,11 +34,30 @@ fn value_size_class(big: bool) -> BoxedStrategy<u8> {
 
 /// `max_keys` keys drawn from a family's universe, each with 1..=max_versions versions.
 pub fn table(max_keys: usize, max_versions: usize, big_values: bool) -> impl Strategy<Value = Table> {
+    // size classes of `gens::value`
+    const SIZES: [usize; 8] = [0, 1, 10, 10, 200, 900, 2500, 30_000];
+    table_sized(max_keys, max_versions, value_size_class(big_values).prop_map(|c| SIZES[c as usize % SIZES.len()]).boxed())
+}
+
+/// A value of exactly `n` bytes whose content is recognisable by `tag` (same shape as
+/// `gens::value`, which it equals for that function's size classes).
+pub fn value_n(tag: u32, n: usize) -> Vec<u8> {
+    let t = format!("<{tag}>");
+    let mut v = Vec::with_capacity(n);
+    while v.len() < n {
+        let take = (n - v.len()).min(t.len());
+        v.extend_from_slice(&t.as_bytes()[..take]);
+    }
+    v
+}
+
+/// As `table`, with the value length of every version drawn from `value_len`.
+pub fn table_sized(max_keys: usize, max_versions: usize, value_len: BoxedStrategy<usize>) -> impl Strategy<Value = Table> {
     (gens::key_family(), 1..=max_keys.max(1)).prop_flat_map(move |(family, nkeys)| {
         let universe = gens::universe(family, 30);
         let per_key = (
             any::<u16>(),
-            prop::collection::vec((timestamp(), prop::bool::weighted(0.3), value_size_class(big_values)), 1..=max_versions),
+            prop::collection::vec((timestamp(), prop::bool::weighted(0.3), value_len.clone()), 1..=max_versions),
         );
         (Just(family), Just(universe), prop::collection::vec(per_key, 0..=nkeys)).prop_map(|(family, universe, picks)| {
             let mut entries: Vec<Entry> = vec![];
@@ -50,7 +69,7 @@ pub fn table(max_keys: usize, max_versions: usize, big_values: bool) -> impl Str
                         continue;
                     }
                     tag += 1;
-                    let v = if tomb { None } else { Some(gens::value(tag, sz)) };
+                    let v = if tomb { None } else { Some(value_n(tag, sz)) };
                     entries.push((key.clone(), ts, v));
                 }
             }
